@@ -207,6 +207,11 @@ func cmdCheck(args []string) int {
 		return engineErr("%v", lerr)
 	}
 	all = append(all, lemObls...)
+	for _, o := range all {
+		if kf.match(prop, o.Name) != nil {
+			o.capTimeout = 6
+		}
+	}
 	// vacuity guard: the spec prelude (axioms about uninterpreted functions) must not be contradictory
 	{
 		var sb strings.Builder
